@@ -40,7 +40,7 @@ def uni_or_empty(a):
 # (a) writers
 # ============================================================================
 def gen_writers(rng, tier):
-    for _ in range(n_cases(tier, 80, 1200)):
+    for _ in range(n_cases(tier, 80, 900)):
         u, desc, ctx = new_universe(rng)
         for _ in range(5):
             try:
@@ -92,7 +92,7 @@ def classify_writers(a, o):
 
 
 def gen_indent(rng, tier):
-    for u, ctx, desc, tree, kind in documents(rng, tier, n_cases(tier, 25, 600), 3):
+    for u, ctx, desc, tree, kind in documents(rng, tier, n_cases(tier, 25, 400), 3):
         for sp in rng.sample(["  ", "\t", "", " ", "--", "\n", " \t"], 2):
             yield {"tree": tree, "space": sp, "_kind": kind}
 
@@ -153,7 +153,7 @@ def gen_dtrees(rng, tier, n_uni, per_uni):
 
 
 def gen_pump(rng, tier):
-    for d in gen_dtrees(rng, tier, n_cases(tier, 50, 900), 3):
+    for d in gen_dtrees(rng, tier, n_cases(tier, 50, 600), 3):
         if rng.random() < 0.5:
             random_stores(rng, d)
         yield {"doc": D.dtree_strip(d), "_print": d}
@@ -165,7 +165,7 @@ def impl_pump(a):
 
 def gen_iterwalk(rng, tier):
     wk = D.well_known()
-    for d in gen_dtrees(rng, tier, n_cases(tier, 50, 900), 3):
+    for d in gen_dtrees(rng, tier, n_cases(tier, 50, 600), 3):
         if rng.random() < 0.3:
             random_stores(rng, d)
         yield {"doc": D.dtree_strip(d), "well_known": wk, "_print": d}
@@ -176,7 +176,7 @@ def impl_iterwalk(a):
 
 
 def gen_inscope(rng, tier):
-    for d in gen_dtrees(rng, tier, n_cases(tier, 50, 900), 3):
+    for d in gen_dtrees(rng, tier, n_cases(tier, 50, 600), 3):
         yield {"doc": D.dtree_strip(d), "_print": d}
 
 
@@ -294,7 +294,7 @@ def clean_tree(xml: str):
 
 
 def gen_handlers(rng, tier, for_corr=False):
-    for u, ctx, desc, tree, kind in documents(rng, tier, n_cases(tier, 60, 1000), 3, mutate=True):
+    for u, ctx, desc, tree, kind in documents(rng, tier, n_cases(tier, 60, 350), 3, mutate=True):
         lay = rng.random()
         try:
             d = D.plain_dtree(tree) if lay < 0.3 else D.layout(rng, tree, allow_default=default_ok(desc, tree))
